@@ -68,7 +68,7 @@ func parseOutcome(p *jmespath.Parser, e string) string {
 
 func c13(r *mon.Run) {
 	r.Rule = "search histories: for each seeded expression (all fragments, weighted towards functions fed with literals and raw strings; plus the literal-fed function matrix) one compiled expression answers a history of 8-40 calls mixing documents on which it succeeds, documents on which it fails, and repetitions of earlier documents (every document a fresh deep copy); every response must equal (up to allowed member order) the response of a freshly compiled expression and of the one-shot Search for the same document, and the compiled AST (hook) must be unchanged after every call. " +
-		"parser histories: one Parser parses sequences of 5-50 valid, ungrammatical and unlexable expressions interleaved; each result (AST, or error type, text, offset and expression) must equal that of a fresh Parser; plus histories of 1500 parses dominated by one failing expression. Non-trivial = distinct histories containing a failing call followed by a succeeding one and a repeated document; parser histories containing a failure followed by a success."
+		"struct-document histories: 114 navigational expressions, each compiled once and run over 6-25 Go-struct documents of the embedding family (same types with nil and non-nil embedded pointers in changing order, as roots, in typed slices, in maps), every answer compared with a fresh compile and the one-shot Search on an identical document. parser histories: one Parser parses sequences of 5-50 valid, ungrammatical and unlexable expressions interleaved; each result (AST, or error type, text, offset and expression) must equal that of a fresh Parser; plus histories of 1500 parses dominated by one failing expression. Non-trivial = distinct histories containing a failing call followed by a succeeding one and a repeated document; parser histories containing a failure followed by a success."
 	r.Floor = 200
 	r.Assumptions = []string{"documents handed to the three call paths are separate deep copies, so document mutation (C06) cannot masquerade as history dependence"}
 	base := c06BaseDoc()
@@ -256,5 +256,83 @@ func c13(r *mon.Run) {
 			}
 			t.Nontrivial(fmt.Sprint("long:", i))
 		}}
-	r.Exec(hist, ph, lph)
+	// histories over Go-struct documents: what a compiled expression learns about a struct type from one
+	// document (field tables, promoted fields behind a nil embedded pointer) must not leak into the next
+	rootNames := []string{"Name", "ID", "Only", "Tag", "Own", "Mid"}
+	var sexprs []string
+	for _, n := range rootNames {
+		sexprs = append(sexprs, n, "[ID, "+n+"]", "{a: "+n+", b: Name}", n+" || 'none'", "[*]."+n, "[?"+n+"].Name", "[0]."+n, "[-1]."+n,
+			"PItems[*]."+n, "QItems[*]."+n, "Items[*]."+n, "QItems[?"+n+"].Tag", "PItems[?"+n+"].Name", "PSet."+n, "PNil."+n, "QSet."+n, "QNil."+n, "[QNil."+n+", QSet."+n+"]", "[QSet."+n+", QNil."+n+"]")
+	}
+	sroots := func(rng *gen.Rand) []func() interface{} {
+		seed := rng.Uint64()
+		sd := func(order int) func() interface{} {
+			return func() interface{} { return docs.ShadowDoc(gen.DeriveN(seed, "c13sd", order), order) }
+		}
+		b := docs.ShBase{Name: "b", ID: 7, Only: "only"}
+		return []func() interface{}{sd(0), sd(1), sd(2), sd(3),
+			func() interface{} { return docs.PlainPtr{Tag: "root-nil"} },
+			func() interface{} { bb := b; return docs.PlainPtr{ShBase: &bb, Tag: "root-set"} },
+			func() interface{} { return &docs.PlainPtr{Tag: "proot-nil"} },
+			func() interface{} { bb := b; return &docs.ShadowPtr{ShBase: &bb, Name: "proot-set"} },
+			func() interface{} { return docs.ShadowPtr{Name: "sroot-nil"} },
+			func() interface{} { bb := b; return []docs.PlainPtr{{Tag: "n"}, {ShBase: &bb, Tag: "s"}} },
+			func() interface{} { bb := b; return []docs.PlainPtr{{ShBase: &bb, Tag: "s"}, {Tag: "n"}} },
+			func() interface{} { bb := b; return []*docs.ShadowPtr{{Name: "n"}, nil, {ShBase: &bb, Name: ""}} },
+			func() interface{} { return docs.Shadow{ShBase: b, Name: "own", Own: 1} },
+			func() interface{} { return docs.ShDeep{ShMid: docs.ShMid{ShBase: b, ID: 9, Mid: "m"}, Only: "d"} },
+		}
+	}
+	canonOut := func(o mon.Observed) string {
+		if o.Panicked {
+			return "PANIC " + o.Panic
+		}
+		if o.Err != nil {
+			return "error"
+		}
+		return mon.Snapshot(docs.JSONForm(o.V))
+	}
+	nsh := tierPick(r, 4000, 80000)
+	sh := mon.Workload{Name: "struct-document-histories", N: nsh, Batch: 200,
+		Do: func(i int, t *mon.Tally) {
+			rng := gen.DeriveN(r.Seed, "c13sh", i)
+			expr := sexprs[i%len(sexprs)]
+			jp, co := apiCompile(expr)
+			if co.Panicked || co.Err != nil {
+				r.Inconclusive("C13 workload expression does not compile: " + expr)
+				return
+			}
+			pool := sroots(rng)
+			n := 6 + rng.Intn(20)
+			var seq []int
+			sawNull, nullThenValue := false, false
+			for k := 0; k < n; k++ {
+				di := rng.Intn(len(pool))
+				if k > 1 && rng.Chance(1, 4) {
+					di = seq[rng.Intn(k)]
+				}
+				seq = append(seq, di)
+				t.Eval()
+				oc := canonOut(apiJP(jp, pool[di]()))
+				of := canonOut(apiCompiledSearch(expr, pool[di]()))
+				oo := canonOut(apiSearch(expr, pool[di]()))
+				if oc != of || of != oo {
+					r.Violate(&mon.Violation{Workload: "struct-document-histories", Index: i, API: "(*JMESPath).Search", Expr: expr, DocDesc: clipStr(mon.Snapshot(pool[di]()), 900),
+						Expected: "call " + fmt.Sprint(k+1) + " of the history answers like a freshly compiled expression (" + clipStr(of, 300) + ") and like one-shot Search (" + clipStr(oo, 300) + ")", Observed: clipStr(oc, 300),
+						Detail: fmt.Sprintf("history (struct document indices): %v", seq), Class: "struct documents: reused compiled expression / one-shot / fresh differ"})
+					return
+				}
+				if oc == "nil" || oc == "error" {
+					sawNull = true
+				} else if sawNull {
+					nullThenValue = true
+				}
+			}
+			t.Count("struct-document histories")
+			if nullThenValue {
+				t.Nontrivial(fmt.Sprint("sh:", expr, seq))
+				t.Count("struct-document histories with a null/error answer followed by a value")
+			}
+		}}
+	r.Exec(hist, ph, lph, sh)
 }
